@@ -153,3 +153,30 @@ def families():
         out.append("- a " + i.replace("\n", "\n  ") + " b\n  #b\n")
     out.append("[r]: /u\n")
     return list(dict.fromkeys(out))
+
+
+def inline_emph(maxlen=7, alphabet="*_a "):
+    """All one-paragraph documents over the emphasis alphabet up to maxlen characters (21 844 for the defaults): every
+    way delimiter runs of the two emphasis characters can open, cross and close."""
+    import itertools
+    out = []
+    for n in range(1, maxlen + 1):
+        for t in itertools.product(alphabet, repeat=n):
+            s = "".join(t)
+            if s.strip() == s and ("*" in s or "_" in s):
+                out.append(s)
+    return out
+
+
+def inline_links(maxlen=6):
+    """Paragraphs from <= maxlen atoms of the link / image / code-span / escape alphabet."""
+    import itertools
+    atoms = ["[", "]", "(", ")", "!", "`", "\\", "<", ">", "a", " ", "/u", "*"]
+    out = []
+    for n in range(1, maxlen + 1):
+        if n <= 4:
+            for t in itertools.product(atoms, repeat=n):
+                s = "".join(t)
+                if s.strip() == s:
+                    out.append(s)
+    return list(dict.fromkeys(out))
